@@ -129,6 +129,7 @@ func (v *Vue) interpolateToWriter(ctx VueContext, w io.Writer, input string) err
 // For script and style tags, values are not HTML-escaped.
 func (v *Vue) interpolate(ctx VueContext, input string) (string, error) {
 	buf := bufferPool.Get().(*strings.Builder)
+	verifPoint(vpBufGet, buf.Len(), 0)
 	defer func() {
 		buf.Reset()
 		bufferPool.Put(buf)
